@@ -142,10 +142,24 @@ def normal_form(expr, params, assigns, depth=0, key=None, facts=None):
             if inner[0] in ('arg', 'norm'):
                 return ('norm', 'local:' + nm + ('' if inner[0] == 'arg' else ':' + inner[1]), inner[-1])
         return ('other', src)
+    if isinstance(expr, ast.Attribute) and isinstance(expr.value, ast.Name) and expr.value.id not in params and depth < 3:
+        # attribute of a local built ONCE by a call with the keyword `attr=<argument>`: options.safe_methods
+        rhss = assigns.get(expr.value.id, [])
+        if len(rhss) == 1 and isinstance(rhss[0], ast.Call):
+            kws = [kw.value for kw in rhss[0].keywords if kw.arg == expr.attr]
+            if len(kws) == 1:
+                inner = normal_form(kws[0], params, assigns, depth + 1)
+                if inner[0] in ('arg', 'norm'):
+                    return ('norm', 'attr:%s.%s' % (expr.value.id, expr.attr) + ('' if inner[0] == 'arg' else ':' + inner[1]),
+                            inner[-1])
     if isinstance(expr, ast.Call):
         ps = [x for x in _names(expr) if x in params]
         if len(ps) == 1:
             return ('norm', _callname(expr), ps[0])
+        if not ps and len(expr.args) == 1 and not expr.keywords and depth < 3:
+            inner = normal_form(expr.args[0], params, assigns, depth + 1)      # f(<normal form of an argument>)
+            if inner[0] in ('arg', 'norm'):
+                return ('norm', _callname(expr) + ('' if inner[0] == 'arg' else ':' + inner[1]), inner[-1])
     ps = [x for x in _names(expr) if x in params]
     if len(ps) == 1:
         return ('norm', 'expr', ps[0])
@@ -224,6 +238,26 @@ def _registered(outer, var):
                 and any(var in _names(a) for a in n.args):
             return True
     return False
+
+
+def documented_normalised(repo_root):
+    """(category, key) pairs whose description in docs/narr/introspector.rst says the value is a normalised version of
+    the argument (the word normalized / normalised occurs in the text under the key)"""
+    import re
+    out, cur, key = set(), None, None
+    with open(os.path.join(repo_root, 'docs', 'narr', 'introspector.rst')) as f:
+        for line in f:
+            m = re.match(r'^``([^`]+)``\s*$', line)
+            if m:
+                cur, key = m.group(1), None
+                continue
+            m = re.match(r'^  ``([^`]+)``\s*$', line)
+            if m and cur:
+                key = m.group(1)
+                continue
+            if cur and key and re.search(r'normali[sz]ed', line, re.I):
+                out.add((cur, key))
+    return out
 
 
 def extract(src_root):
